@@ -98,11 +98,13 @@ static char *penv_one[] = { "ONLY=1", NULL };
 static char *penv_dup[] = { "A=first", "PATH=/usr/bin:/bin", "A=second", NULL };
 static char *penv_forty[42];
 
-static long n_env_cfg(int tier) { return (long) (tier ? 585 : 73) * 2 * 4; }
+static long n_env_cfg(int tier) { return (long) (tier ? 585 : 73) * 2 * 4 * 2; }
 
 static void env_cfg(int tier, long cfg)
 {
   (void) tier;
+  int forkmode = (int) (cfg % 2); /* the same lists through fork mode: the forked side reports the environment it ends up with */
+  cfg /= 2;
   int pe = (int) (cfg % 4);
   cfg /= 4;
   int behavior = (int) (cfg % 2);
@@ -114,12 +116,14 @@ static void env_cfg(int tier, long cfg)
   else if (cfg >= 73) { long k = cfg - 73; extra[0] = env_entries[k % 8]; extra[1] = env_entries[(k / 8) % 8]; extra[2] = env_entries[k / 64]; n = 3; }
   extra[n] = NULL;
   memset(&vk_cfg, 0, sizeof vk_cfg);
-  vk_cfg.real_exec = (cfg % 5) == 0; /* every fifth list with the real exec as well: binds the emulation */
+  vk_cfg.real_exec = (cfg % 5) == 0 && !forkmode; /* every fifth list with the real exec as well: binds the emulation */
+  vk_cfg.fork_mode = forkmode;
+  vk_cfg.fork_child_first = forkmode;
   vk_cfg.vlimit = 24;
   vk_cfg.hello_lite = !vk_cfg.real_exec;
-  snprintf(key, sizeof key, "h_c03|env|behavior=%s|parent-env=%d|extra=%d|list=%ld", behavior ? "empty" : "extend", pe, n, cfg);
+  snprintf(key, sizeof key, "h_c03|env|behavior=%s|parent-env=%d|extra=%d|list=%ld|%s", behavior ? "empty" : "extend", pe, n, cfg, forkmode ? "fork-mode" : "exec");
   hx_desc("%s", key);
-  snprintf(key, sizeof key, "h_c03|env|behavior=%s", behavior ? "empty" : "extend");
+  snprintf(key, sizeof key, "h_c03|env|behavior=%s%s", behavior ? "empty" : "extend", forkmode ? "|fork-mode" : "");
   hx_begin();
   static char strs[40][24];
   for (int i = 0; i < 40; i++) { snprintf(strs[i], sizeof strs[i], "V%02d=value %d", i, i * i); penv_forty[i] = strs[i]; }
@@ -132,7 +136,9 @@ static void env_cfg(int tier, long cfg)
   o.env.extra = n || (cfg & 1) ? extra : NULL; /* NULL and an empty list must behave the same */
   vk_script("");
   reproc_t *p = hx_new();
-  int r = hx_start(p, hx_helper_argv(), o);
+  o.fork = forkmode;
+  int r = hx_start(p, forkmode ? NULL : hx_helper_argv(), o);
+  if (vk_side != 0) hx_forked_side(p, r);
   if (r < 0) { vk_violation("C03", "start", key, "start returned %s", hx_errname(r)); hx_destroy(p); return; }
   struct vk_child *c = &vk_children[0];
   if (vk_environ != parent) vk_violation("C12", "parent-environ-untouched", key, "the caller's environ pointer changed");
